@@ -573,7 +573,46 @@ func (k *Kernel) addProposedHeader(ctx context.Context, s *kState, ph tmconsensu
 		for blockHash, laterSigs := range commitProofs {
 			target := backfillVRV.PrecommitProofs[blockHash]
 			if target == nil {
-				panic("TODO: backfill unknown block precommit")
+				// We have not seen any precommit for this block (or nil)
+				// in the committing round yet, so start a new proof for it.
+				if ph.Header.PrevCommitProof.Round != backfillVRV.Round {
+					// The proof is for another round than the one we are committing;
+					// its signatures cannot be filed under the committing view.
+					continue
+				}
+
+				signContent, err := tmconsensus.PrecommitSignBytes(tmconsensus.VoteTarget{
+					Height:    backfillVRV.Height,
+					Round:     backfillVRV.Round,
+					BlockHash: blockHash,
+				}, k.sigScheme)
+				if err != nil {
+					glog.HRE(k.log, ph.Header.Height, ph.Round, err).Warn(
+						"Failed to build precommit sign bytes while backfilling commit info",
+					)
+					continue
+				}
+
+				target, err = k.cmspScheme.New(
+					signContent,
+					backfillVRV.ValidatorSet.PubKeys,
+					string(backfillVRV.ValidatorSet.PubKeyHash),
+				)
+				if err != nil {
+					glog.HRE(k.log, ph.Header.Height, ph.Round, err).Warn(
+						"Failed to build signature proof while backfilling commit info",
+					)
+					continue
+				}
+
+				if res := target.MergeSparse(gcrypto.SparseSignatureProof{
+					PubKeyHash: ph.Header.PrevCommitProof.PubKeyHash,
+					Signatures: laterSigs,
+				}); res.IncreasedSignatures {
+					backfillVRV.PrecommitProofs[blockHash] = target
+					mergedAny = true
+				}
+				continue
 			}
 
 			laterSparseCommit := gcrypto.SparseSignatureProof{
